@@ -17,3 +17,5 @@ pub mod modarith;
 pub use modarith::*;
 pub mod primes;
 pub use primes::*;
+pub mod divide;
+pub use divide::*;
